@@ -387,6 +387,22 @@ def main(tier):
     # ---- R-C17-5 coarsening / distances by interpretation with effect recording
     f_coarse = prog.fn("coarseningGrid")
     f_dist = prog.fn("PolarGrid::initializeDistances")
+    # parameters after the grid (added later with default values): the literal every call site of the library passes (default
+    # arguments are materialised at the call sites by the front end); no agreement -> the anchor's signature really changed
+    coarse_extra = []
+    if len(f_coarse["params"]) > 1:
+        sites = [c for fl in ir.load().functions.values() for f in fl for c in structq.calls_in(f["body"]) if structq.callee_of(c) == "coarseningGrid" and len(c.get("args", [])) == len(f_coarse["params"])]
+        for k_ in range(1, len(f_coarse["params"])):
+            vals_ = set()
+            for c in sites:
+                a_ = c["args"][k_]
+                while a_.get("k") in ("Paren", "Cast", "ImplicitCast") and a_.get("e") is not None:
+                    a_ = a_["e"]
+                vals_.add((a_.get("k"), str(a_.get("v"))) if a_.get("k") in ("Int", "Bool") else ("?", ir.show(a_)))
+            if len(vals_) != 1 or list(vals_)[0][0] == "?":
+                raise ir.AnalysisBroken("coarseningGrid has %d parameters and the library's call sites do not pass one literal for parameter %d" % (len(f_coarse["params"]), k_))
+            kind_, v_ = list(vals_)[0]
+            coarse_extra.append((v_ in ("True", "true", "1")) if kind_ == "Bool" else int(v_))
     ck.analysed(f_coarse)
     ck.analysed(f_dist)
 
@@ -428,7 +444,7 @@ def main(tier):
         g = grids.make_grid(nr, nt, 2)
         probs = []
         try:
-            it.call_function(f_coarse, g, [Cell(g)])
+            it.call_function(f_coarse, g, [Cell(g)] + coarse_extra)
         except ThrowEx as t:
             probs.append("throws %s" % t.what)
         res = getattr(dom, "result", None)
